@@ -19,7 +19,7 @@ import (
 func init() {
 	core.Register(&core.Simple{
 		Id: "C10", Lvl: "exploration", Quick: 450, Thorough: 15000, PerBatch: 150, Width: 150, Timeout: 2400,
-		RuleText: "each case generates a directory tree (depth <= 4, fan-out <= 6, empty folders, hidden files and folders, file sizes 0..40 KiB, ASCII names of 1..60 bytes incl. spaces) and runs one of: folder download with a per-item action script (send / resume at an offset / skip), folder upload into a target that is empty or already holds complete files and .incomplete partials, or upload followed by download of the same tree. The reference folder-download client checks: item headers counted = announced item count; items = depth-first walk of names not starting with a dot, each once, with relative paths; for every file the size prefix and the bytes for the chosen action (flattened header consistent, exactly the file's data from the offset); nothing after the last item. The reference folder-upload client checks the action the server chooses per item (send / skip complete / resume from the partial's size) and that the resulting tree equals the streamed tree. distinct = (mode, items class, actions used); non-trivial = tree has at least 3 items",
+		RuleText: "each case generates a directory tree (depth <= 4, fan-out <= 6, empty folders, hidden files and folders, file sizes 0..40 KiB, ASCII names of 1..60 bytes incl. spaces) and runs one of: folder download with a per-item action script (send / resume at an offset / skip), folder upload into a target that is empty or already holds complete files and .incomplete partials, upload followed by download of the same tree, or an upload whose connection is cut inside one file's data and which is then retried (the cut file must not appear under its final name; the retry must resume it). The reference folder-download client checks: item headers counted = announced item count; items = depth-first walk of names not starting with a dot, each once, with relative paths; for every file the size prefix and the bytes for the chosen action (flattened header consistent, exactly the file's data from the offset); nothing after the last item. The reference folder-upload client checks the action the server chooses per item (send / skip complete / resume from the partial's size) and that the resulting tree equals the streamed tree. distinct = (mode, items class, actions used); non-trivial = tree has at least 3 items",
 		Case: runCase,
 	})
 }
@@ -362,7 +362,7 @@ func runCase(c *core.Case) {
 		b := 10
 		tree = genTree(r, 2, &b)
 	}
-	mode := []string{"download", "download-script", "upload", "upload-prefilled", "roundtrip"}[c.Index%5]
+	mode := []string{"download", "download-script", "upload", "upload-prefilled", "roundtrip", "upload-cut-retry"}[c.Index%6]
 	folder := "Folder " + fmt.Sprint(r.Intn(100))
 	var parent []string
 	if r.Bool() {
@@ -399,6 +399,8 @@ func runCase(c *core.Case) {
 		upload(c, srv, cl, "Target", tree, false)
 	case "upload-prefilled":
 		upload(c, srv, cl, "Target", tree, true)
+	case "upload-cut-retry":
+		uploadCutRetry(c, srv, cl, tree)
 	case "roundtrip":
 		if upload(c, srv, cl, "Round", tree, false) {
 			download(c, srv, cl, "Round", []string{"Uploads"}, tree, false)
@@ -406,4 +408,110 @@ func runCase(c *core.Case) {
 	}
 	c.Count("trees", 1)
 	c.Count("tree_items", n)
+}
+
+// uploadCutRetry cuts the connection inside the data of one file item, checks that the file did not appear under
+// its final name, then uploads the whole tree again: the server must ask to resume exactly that file and the
+// resulting tree must equal the streamed tree.
+func uploadCutRetry(c *core.Case, srv *fixture.Server, cl *refclient.Client, tree []*node) {
+	r := c.R
+	all := walk(tree, nil, false)
+	var files []int
+	for i, f := range all {
+		if !f.n.dir && len(f.n.data) >= 2 {
+			files = append(files, i)
+		}
+	}
+	if len(files) == 0 {
+		upload(c, srv, cl, "Cut", tree, false)
+		return
+	}
+	victim := core.Pick(r, files)
+	k := 1 + r.Intn(len(all[victim].n.data)-1)
+	dst := filepath.Join(srv.FileRoot, "Uploads", "Cut")
+	mk := func() ([]xfer.UpItem, int) {
+		var items []xfer.UpItem
+		total := 0
+		for _, f := range all {
+			var pb [][]byte
+			for _, s := range f.path {
+				pb = append(pb, []byte(s))
+			}
+			items = append(items, xfer.UpItem{IsFolder: f.n.dir, Path: pb, Data: f.n.data})
+			total += len(f.n.data)
+		}
+		return items, total
+	}
+	items, total := mk()
+	items[victim].CutAfter = k
+	rep, ok := cl.Call(213, rc.FS(201, "Cut"), rc.F(202, rc.PathS("Uploads")), rc.F(108, rc.U32(total)), rc.F(220, rc.U16(len(items))))
+	if !ok || rep.Err != 0 {
+		c.Fail("C10/upload/request-refused", "folder upload request refused: %v", rep)
+		return
+	}
+	ref, _ := rep.Get(107)
+	_, t, err := xfer.FolderUpload(srv, "10.10.0.1:4", ref, items)
+	t.WaitDone(xfer.TransferWatchdog)
+	if err != xfer.ErrCut {
+		c.Fail("C10/upload/protocol", "folder upload before the planned cut: %v", err)
+		return
+	}
+	c.Count("folder_upload_cuts", 1)
+	vp := filepath.Join(append([]string{dst}, all[victim].path...)...)
+	if b, err := os.ReadFile(vp); err == nil {
+		c.Fail("C10/upload-cut/final-name-present", "folder upload: the connection was cut after %d of %d data bytes of item %q, but the file exists under its final name with %d bytes", k, len(all[victim].n.data), strings.Join(all[victim].path, "/"), len(b))
+		return
+	}
+	if b, _ := os.ReadFile(vp + ".incomplete"); !bytes.Equal(b, all[victim].n.data[:k]) {
+		c.Fail("C10/upload-cut/partial-differs", "folder upload: after a cut at %d data bytes the partial of %q holds %d bytes", k, strings.Join(all[victim].path, "/"), len(b))
+		return
+	}
+	// retry the whole tree
+	items, total = mk()
+	rep, ok = cl.Call(213, rc.FS(201, "Cut"), rc.F(202, rc.PathS("Uploads")), rc.F(108, rc.U32(total)), rc.F(220, rc.U16(len(items))))
+	if !ok || rep.Err != 0 {
+		c.Fail("C10/upload/request-refused", "folder upload retry refused: %v", rep)
+		return
+	}
+	ref, _ = rep.Get(107)
+	res, t2, err := xfer.FolderUpload(srv, "10.10.0.1:5", ref, items)
+	t2.WaitDone(xfer.TransferWatchdog)
+	if err != nil {
+		c.Fail("C10/upload/protocol", "folder upload retry: %v", err)
+		return
+	}
+	for i, it := range res {
+		if it.IsFolder {
+			continue
+		}
+		want := 3 // already complete
+		if i == victim {
+			want = 2
+		} else if i > victim {
+			want = 1
+		}
+		if it.Action != want {
+			c.Fail("C10/upload-retry/action", "retry after a cut: item %q got action %d, expected %d (victim index %d, this item %d)", strings.Join(all[i].path, "/"), it.Action, want, victim, i)
+			return
+		}
+		if i == victim && it.Offset != k {
+			c.Fail("C10/upload-retry/resume-offset", "retry: resume offset %d, the partial holds %d bytes", it.Offset, k)
+			return
+		}
+	}
+	got := snapshotTree(dst)
+	want := map[string]string{}
+	modelTree(tree, "", want)
+	for p, v := range want {
+		if got[p] != v {
+			c.Fail("C10/upload/tree-differs", "after cut and retry %q is %q on disk, streamed %s", p, got[p], v)
+			return
+		}
+	}
+	for p := range got {
+		if _, ok := want[p]; !ok {
+			c.Fail("C10/upload/tree-differs", "after cut and retry %q exists on disk but was never streamed", p)
+			return
+		}
+	}
 }
